@@ -1,6 +1,7 @@
 #!/usr/bin/env python3
 """dev helper: run verus on a file and print per-function times + errors"""
-import json, subprocess, sys
+import json, subprocess, sys, os
+os.environ.setdefault('CARGO_PKG_NAME','simple-irc-server'); os.environ.setdefault('CARGO_PKG_VERSION','0.1.8')
 p = subprocess.run(['verus', sys.argv[1], '--output-json', '--time', '--triggers-mode', 'silent', '--multiple-errors', '5'] + sys.argv[2:], capture_output=True, text=True)
 try:
     d = json.loads(p.stdout)
